@@ -161,8 +161,9 @@ func init() {
 }
 
 // loadPrelude reads spec/*.smt2 in lexical order. Annotation lines start with ";;@".
-//   ;;@ axiom NAME [trigger=a,b] :: description   (applies to the next form, an assert)
-//   ;;@ lemma NAME props=C01,C02 :: description   (until ";;@ end"; a complete script, expected unsat)
+//
+//	;;@ axiom NAME [trigger=a,b] :: description   (applies to the next form, an assert)
+//	;;@ lemma NAME props=C01,C02 :: description   (until ";;@ end"; a complete script, expected unsat)
 func loadPrelude(dir string) (*Prelude, error) {
 	files, _ := filepath.Glob(filepath.Join(dir, "*.smt2"))
 	sort.Strings(files)
